@@ -1344,7 +1344,8 @@ func codecOtherModes(mode string, rng *rand.Rand, stt *stats, w *evWriter, n int
 			if i < 49 {
 				so, sm = shapes[i%7], shapes[i/7]
 			}
-			listed := [][]string{{"u"}, {"v", "u"}, {"u", "u", "w"}, {}}[rng.Intn(4)]
+			// (the empty id is an id like any other inside a list: it is listed, so it is held)
+			listed := [][]string{{"u"}, {"v", "u"}, {"u", "u", "w"}, {}, {"", "u", ""}, {""}}[rng.Intn(6)]
 			ro := relShape{Name: "o", To1: true, Shape: so, Listed: []string{}}
 			rm := relShape{Name: "m", To1: false, Shape: sm, Listed: []string{}}
 			if so == "ident" || so == "identbadtype" {
@@ -1699,7 +1700,7 @@ type ptEvent struct {
 
 var ptypeScenarios = []string{"norels:plain", "norels:emptyrels", "norels:unknownrel-ident", "norels:unknownrel-nodata",
 	"norels:unknownattr", "spare:first", "spare:removed", "spare:back-new-field", "spare:back-old-field",
-	"spare:back-rel", "spare:back-old-rel"}
+	"spare:back-rel", "spare:back-old-rel", "dup:both", "dup:attr-only", "dup:rel-only"}
 
 func runPType(c ptCase) ptEvent {
 	ev := ptEvent{Ev: "ptype", Impl: c.Impl, Scenario: c.Scenario, TypeKnown: true, WantAttrs: []string{}, WantRels: []string{},
@@ -1747,6 +1748,32 @@ func runPType(c ptCase) ptEvent {
 	case "norels:unknownattr":
 		ev.TName, ev.WantAttrs, ev.UnknownAttr = "ak3", []string{"t", "zz"}, true
 		payload = `{"type":"ak3","id":"n1","attributes":{"t":"v","zz":1}}`
+	case "dup:both", "dup:attr-only", "dup:rel-only":
+		// a soft type in which an attribute and a relationship carry the same name (Schema.AddAttr and
+		// AddRel build it): what a payload names is reported, kind by kind
+		ev.TName = "t11"
+		must(s.AddType(jsonapi.Type{Name: "t11"}))
+		must(s.AddAttr("t11", jsonapi.Attr{Name: "dup", Type: jsonapi.AttrTypeString}))
+		must(s.AddAttr("t11", jsonapi.Attr{Name: "k", Type: jsonapi.AttrTypeString}))
+		if err := s.AddRel("t11", jsonapi.Rel{FromType: "t11", FromName: "dup", ToOne: true, ToType: "ak3"}); err != nil {
+			infra("the library refuses a relationship named like an attribute: the scenario has no object")
+		}
+		attrs, rels := `"attributes":{"dup":"x","k":"kv"}`, `"relationships":{"dup":{"data":{"type":"ak3","id":"r"}}}`
+		switch c.Scenario {
+		case "dup:both":
+			ev.WantAttrs, ev.WantRels = []string{"dup", "k"}, []string{"dup"}
+			payload = `{"type":"t11","id":"h1",` + attrs + `,` + rels + `}`
+		case "dup:attr-only":
+			ev.WantAttrs = []string{"dup", "k"}
+			payload = `{"type":"t11","id":"h1",` + attrs + `}`
+		default:
+			ev.WantRels = []string{"dup"}
+			payload = `{"type":"t11","id":"h1",` + rels + `}`
+		}
+		wantVals["k"] = "kv"
+		if c.Scenario == "dup:rel-only" {
+			delete(wantVals, "k")
+		}
 	default:
 		// the spare type: read once as it is, removed, and (for the "back" scenarios) added again with
 		// one attribute "b" and one relationship "rb" - an earlier answer is no answer for a later call
